@@ -1,4 +1,4 @@
-import RedisGoModel.Props.C08ReadyDisk
+import RedisGoModel.Props.C08ReadySave
 import RedisGoModel.Generated.ReadyArm
 /-! # C08 — persist before externalise, as a theorem about the loop model `Cluster/ReadyLoop.lean`
 
@@ -215,6 +215,107 @@ theorem snapshot_run_safe_now : Conforms {} {} snapRun ∧ ∀ n, safeB (run {} 
   · have : ∀ m, m < snapRun.length → safeB (run {} {} (snapRun.take m)) = true := by decide
     exact this n h
   · rw [List.take_of_length_le (by omega)]; decide
+
+
+/-! ## the four remaining statements, each under the condition it needs -/
+
+/-- after `take`, every log promise still owed lies below the first index of the Ready's entries -/
+theorem take_not_taken_back (c : Cfg) (s : State) (rd : Ready) (p : Promise) (hp : p ∈ (take c s rd).owed) (hv : ∀ t x, p = .vote t x → x ≠ 0) :
+    NotTakenBack rd.ents p := by
+  have hf : released rd p = false := by simpa [take] using (List.mem_filter.mp hp).2
+  cases p with
+  | term t => trivial
+  | vote t x => exact hv t x rfl
+  | snap i => trivial
+  | ent x =>
+    intro e he
+    cases hre : rd.ents with
+    | nil => rw [hre] at he; simp at he
+    | cons f r => rw [hre] at he; simp at he; subst he; simp [released, hre] at hf; omega
+  | reach i =>
+    intro e he
+    cases hre : rd.ents with
+    | nil => rw [hre] at he; simp at he
+    | cons f r => rw [hre] at he; simp at he; subst he; simp [released, hre] at hf; omega
+
+/-- **`wal.Save` of the arm (`walWrite`), torn anywhere, keeps `Safe`** when, relative to what a restart would read from everything written so
+    far (`v`): the entries are consecutive, start above its snapshot and at most one past its end; the hard state keeps its term and vote
+    promises and does not lower its commit index; and the promises owed are the ones raft has not taken back -/
+theorem walWrite_safe (c : Cfg) (s : State) (h : Safe s) (v : View) (hv : replayRecs s.disk.all s.disk.files = some v)
+    (hch : Chain s.rd.ents) (hfirst : ∀ e ∈ s.rd.ents.head?, v.snap.index < e.index ∧ e.index ≤ v.last + 1)
+    (hhs : s.rd.hs.isEmpty = false → HsKeeps v.hs s.rd.hs ∧ v.hs.commit ≤ s.rd.hs.commit)
+    (hnt : ∀ p ∈ s.owed, NotTakenBack s.rd.ents p) : Safe (exec c s .walWrite) := by
+  simp only [exec]
+  split
+  · exact safe_of_eq rfl (fun _ hp => hp) h
+  · intro k
+    show ∃ v', replay (s.disk.write _) k = some v' ∧ ∀ p ∈ s.owed, p.holds v'
+    rw [replay_write]
+    split
+    · exact h k
+    · obtain ⟨v0, hv0, hp0⟩ := h s.disk.buffered.length
+      have hv0' : replayRecs s.disk.all s.disk.files = some v0 := by rw [← all_eq_image]; exact hv0
+      have hvv : v0 = v := by rw [hv] at hv0'; exact (Option.some.inj hv0').symm
+      subst hvv
+      cases hemp : s.rd.hs.isEmpty with
+      | true =>
+        obtain ⟨v', hv', hk, _⟩ := save_keeps_promises hv s.rd.ents hch hfirst none (by intro h hh; simp at hh) (k - s.disk.buffered.length)
+        exact ⟨v', by simpa [Option.toList] using hv', fun p hp => hk p (hp0 p hp) (hnt p hp)⟩
+      | false =>
+        obtain ⟨v', hv', hk, _⟩ := save_keeps_promises hv s.rd.ents hch hfirst (some s.rd.hs)
+          (by intro h hh; simp at hh; subst hh; exact hhs hemp) (k - s.disk.buffered.length)
+        exact ⟨v', by simpa [Option.toList] using hv', fun p hp => hk p (hp0 p hp) (hnt p hp)⟩
+
+/-- **externalising keeps `Safe` exactly when the new promises are kept by every crash image at that moment** (`send`, `publishEntries`,
+    `publishSnapshot` change nothing on disk) -/
+theorem externalise_safe (c : Cfg) (s : State) (st : Stmt) (hst : st = .send ∨ st = .publish ∨ st = .publishSnap) (h : Safe s)
+    (hnew : ∀ k v, replay s.disk k = some v → ∀ p ∈ (exec c s st).owed, p ∉ s.owed → p.holds v) : Safe (exec c s st) := by
+  have hd : (exec c s st).disk = s.disk := by
+    rcases hst with rfl | rfl | rfl <;> simp only [exec] <;> (try split) <;> rfl
+  intro k
+  obtain ⟨v, hv, hp⟩ := h k
+  refine ⟨v, by rw [hd]; exact hv, ?_⟩
+  intro p hpm
+  by_cases hin : p ∈ s.owed
+  · exact hp p hin
+  · exact hnew k v hv p hpm hin
+
+/-! ## the full statement -/
+
+/-- **persist before externalise**, the full statement for an arm: in every state reachable from the empty node by events that respect etcd's
+    contract (any Readys that are `ReadyOk`, statements, crashes keeping any prefix of the unsynced tail), a crash now, whatever survives
+    of the tail, is followed by a successful restart that keeps every promise made and not taken back by raft -/
+def PersistBeforeExternalise (c : Cfg) : Prop := ∀ evs, Conforms c {} evs → Safe (run c {} evs)
+
+theorem persistBeforeExternalise_false_send_first : ¬ PersistBeforeExternalise { arm := sendFirstArm } := by
+  intro h
+  obtain ⟨evs, hc, hs⟩ := send_before_save_violates
+  exact hs (h evs hc)
+
+theorem persistBeforeExternalise_false_without_sync : ¬ PersistBeforeExternalise { arm := noSyncArm } := by
+  intro h
+  obtain ⟨evs, hc, hs⟩ := missing_snapshot_sync_violates
+  exact hs (h evs hc)
+
+def rd4 : Ready := { hs := ⟨1, 1, 2⟩, ents := [e 3 1, e 4 1, e 5 1], committed := [e 1 1, e 2 1], msgs := [.appResp 1 1 5 false] }
+def rd5 : Ready := { hs := ⟨1, 1, 5⟩, committed := [e 3 1, e 4 1, e 5 1] }
+def rd6 : Ready := { hs := ⟨2, 3, 5⟩, ents := [⟨6, 2, 7⟩, ⟨7, 2, 8⟩], msgs := [.voteResp 2 3 false, .appResp 2 3 7 false] }
+/-- entries, a commit, the node's own snapshot (applied 5 > snapCount 3) interrupted by a crash between its WAL record and the sync (the
+    record and the buffered commit index are lost, the file is an orphan), a vote and a new leader's entries in term 2 with `wal.Save` torn
+    after the first entry record, then the same Ready again overwriting that entry -/
+def longRun : List Ev :=
+  [.ready rd1] ++ stmts 16 ++ [.ready rd4] ++ stmts 16 ++ [.ready rd5] ++ stmts 13 ++ [.crash 0] ++ [.ready rd6] ++ stmts 5 ++ [.crash 1]
+    ++ [.ready rd6] ++ stmts 16
+
+/-- non-vacuity: a conforming run through the arm as it is, with a local snapshot, two crashes (one tearing `wal.Save`) and an overwritten tail,
+    is `Safe` after every event -/
+theorem long_run_safe_now : Conforms {} {} longRun ∧ ∀ n, safeB (run {} {} (longRun.take n)) = true := by
+  refine ⟨by decide +kernel, ?_⟩
+  intro n
+  by_cases h : n < longRun.length
+  · have : ∀ m, m < longRun.length → safeB (run {} {} (longRun.take m)) = true := by decide +kernel
+    exact this n h
+  · rw [List.take_of_length_le (by omega)]; decide +kernel
 
 /-- a Ready with a snapshot AND entries after it (within etcd's contract, outside `ReadyOk`) -/
 def rdSnapEnts : Ready := { hs := ⟨1, 1, 10⟩, snap := { index := 10, term := 1, conf := [1, 2, 3], data := 10 }, ents := [e 11 1] }
